@@ -44,6 +44,12 @@ type Pool struct {
 	DB    *sql.DB
 	Drv   *simdrv.Sim
 	Sched Sched
+	// PerTask, when set, gives every simulated task its own *sql.DB on the same
+	// database.  Tasks then never pass through the same database/sql mutexes, so
+	// the order in which a serial execution happens to run them creates no
+	// happens-before edges between them: the race detector judges gorm's own
+	// synchronisation only.
+	PerTask []*sql.DB
 
 	bufs [simdrv.MaxTasks][]Event
 
@@ -63,6 +69,18 @@ type Pool struct {
 
 func New(db *sql.DB, drv *simdrv.Sim) *Pool {
 	return &Pool{DB: db, Drv: drv, CancelAt: -1}
+}
+
+// db returns the *sql.DB the calling task uses.
+//
+//go:norace
+func (p *Pool) db() *sql.DB {
+	if p.PerTask != nil {
+		if t := p.cur(); t >= 0 && t < len(p.PerTask) && p.PerTask[t] != nil {
+			return p.PerTask[t]
+		}
+	}
+	return p.DB
 }
 
 //go:norace
@@ -214,7 +232,7 @@ func (p *Pool) PrepareContext(ctx context.Context, q string) (*sql.Stmt, error) 
 	if p.Sched != nil {
 		p.Sched.Yield("pool:prepare-inflight")
 	}
-	st, err := p.DB.PrepareContext(ctx, q)
+	st, err := p.db().PrepareContext(ctx, q)
 	if p.Bound > 0 && p.Sched != nil {
 		p.dropSlot()
 	}
@@ -230,7 +248,7 @@ func (p *Pool) ExecContext(ctx context.Context, q string, args ...interface{}) (
 	if !p.acquire(w, true) {
 		return nil, ErrAborted
 	}
-	res, err := p.DB.ExecContext(ctx, q, args...)
+	res, err := p.db().ExecContext(ctx, q, args...)
 	if p.Sched != nil {
 		if p.Bound > 0 {
 			p.dropSlot()
@@ -251,7 +269,7 @@ func (p *Pool) QueryContext(ctx context.Context, q string, args ...interface{}) 
 	if !p.acquire(w, true) {
 		return nil, ErrAborted
 	}
-	rows, err := p.DB.QueryContext(ctx, q, args...)
+	rows, err := p.db().QueryContext(ctx, q, args...)
 	if p.Sched != nil {
 		if p.Bound > 0 {
 			p.dropSlot() // simplification: the slot of an autocommit query is released when the call returns
@@ -267,7 +285,7 @@ func (p *Pool) QueryContext(ctx context.Context, q string, args ...interface{}) 
 
 func (p *Pool) QueryRowContext(ctx context.Context, q string, args ...interface{}) *sql.Row {
 	p.enter("query_row")
-	row := p.DB.QueryRowContext(ctx, q, args...)
+	row := p.db().QueryRowContext(ctx, q, args...)
 	p.record(Event{Kind: "query_row", SQL: simdrv.NormSQL(q), Ctx: p.Drv.CtxTag(ctx), Err: errStr(row.Err())})
 	p.leave("query_row")
 	return row
@@ -283,7 +301,7 @@ func (p *Pool) BeginTx(ctx context.Context, opts *sql.TxOptions) (gorm.ConnPool,
 	if !p.acquire(!readOnly, true) {
 		return nil, ErrAborted
 	}
-	tx, err := p.DB.BeginTx(ctx, opts)
+	tx, err := p.db().BeginTx(ctx, opts)
 	p.record(Event{Kind: "begin", Ctx: p.Drv.CtxTag(ctx), Err: errStr(err)})
 	if err != nil {
 		if p.Sched != nil {
